@@ -43,4 +43,14 @@ example : Obj.eq ⟨⟨1, 2⟩, .arr (.seq .list [.num 2 true, .num 3 true])⟩
     ⟨⟨1, 2⟩, .fixed (.seq .list [.num 2 true, .num 3 true]) 2⟩ = .ok false := by decide
 example : Obj.eq ⟨⟨1, 2⟩, .arr (.num 5)⟩ ⟨⟨1, 2⟩, .arr (.num 5)⟩ = .error .type := by decide
 
+-- an int that no double holds: every form stores the float image, and the int itself is != to it
+example : construct poscDb .scalar (.atom (.big (2^53 + 1) (2^53))) (.str (Sym.ofString "m")) .none
+    = .ok ⟨⟨Sym.ofString "length", Sym.ofString "m"⟩, .scalar (2^53)⟩ := by decide +kernel
+example : createWithQuantity poscDb .scalar ⟨Sym.ofString "length", Sym.ofString "m"⟩ (.atom (.big (2^53 + 1) (2^53))) false none
+    = construct poscDb .scalar (.atom (.big (2^53 + 1) (2^53))) (.str (Sym.ofString "m")) .none := by decide +kernel
+example : atomEq (.big (2^53 + 1) (2^53)) (.num (2^53) false) = false := by decide +kernel
+example : atomEq (.bool true) (.num 1 false) = true := by decide +kernel
+example : construct poscDb .fraction (.atom (.bool true)) (.str (Sym.ofString "m")) .none
+    = .ok ⟨⟨Sym.ofString "length", Sym.ofString "m"⟩, .fraction 1 0⟩ := by decide +kernel
+
 end Barril.Ctor
